@@ -15,6 +15,7 @@ import warnings
 
 from .. import desc, edits, engine, gen
 from ..report import HarnessError
+from .hazards_c20 import HAZARDS, PLACES
 
 RULE = ('(a,b) texts = all alternations word,sep,word,... with <=k words over 13 word tokens x 7 separators, x 18 '
         '(width, indent, offset) sets for wrap and x 12 (width, indent, nl) sets for rst; (c) every pre-formatter rendering '
@@ -309,24 +310,29 @@ def doc_texts():
     return out
 
 
-def doc_job(offset=0):
+def doc_job(offset=0, hazard=None):
+    """One commented baseline library.  hazard=None: the mixed word texts, one per element; hazard=(id, text): that text on
+    every element (so every element kind -- every embedding site -- meets it), placements rotating per element."""
     from .. import apis
     from ..ref import names as refnames
     texts = doc_texts()
     f = apis.baseline_file()
-    comments, kinds = {}, {}
+    comments, kinds, placed = {}, {}, {}
     i = 0
     for kind, full, path in desc.element_paths(f):
         if kind == 'enum_value' and full.endswith('_UNSPECIFIED'):
             continue
-        comments[full] = texts[(i * 37 + offset * 131) % len(texts)]
+        comments[full] = texts[(i * 37 + offset * 131) % len(texts)] if hazard is None else hazard[1]
+        placed[full] = PLACES[(i + offset) % len(PLACES)]
         kinds[full] = kind
         i += 1
-    desc.add_comments(f, {k: ' ' + v + '\n' for k, v in comments.items()})
-    req = desc.request([f], 'transport=grpc')
+    desc.add_comments(f, {k: (' ' + v + '\n', placed[k]) for k, v in comments.items()})
+    req = desc.request([f], 'transport=grpc+rest')
     desc.gate(req)
-    return dict(id=f'docwords{offset}', req=req.SerializeToString(), probe='mc.probes.docwords',
-                probe_args=dict(package=refnames.import_package(apis.P), proto_package=apis.P, comments=comments, kinds=kinds)), len(texts)
+    jid = f'docwords{offset}' if hazard is None else f'dochazard:{hazard[0]}/{offset}'
+    return dict(id=jid, req=req.SerializeToString(), probe='mc.probes.docwords',
+                probe_args=dict(package=refnames.import_package(apis.P), proto_package=apis.P, comments=comments, kinds=kinds,
+                                places=placed)), len(texts)
 
 
 # ------------------------------------------------------------------------ driver
@@ -346,7 +352,9 @@ def run(ctx):
             ctasks.append((ok_edits if not tp else [e for e in ok_edits if e not in ('subpkg_types', 'dep_pkg_types', 'iam_types', 'no_default_host', 'same_basename_imports')],
                            f'transport={tr},metadata{tp}'))
     pool = engine.pool()
-    f_docs = [pool.submit(engine.run_job, doc_job(k)[0], engine.scratch_root()) for k in range(16 if ctx.thorough else 8)]
+    djobs = [doc_job(k)[0] for k in range(16 if ctx.thorough else 8)]
+    djobs += [doc_job(o, h)[0] for h in HAZARDS for o in ((0, 1, 2, 3) if ctx.thorough else (HAZARDS.index(h) % 4,))]
+    f_docs = [pool.submit(engine.run_job, j, engine.scratch_root()) for j in djobs]
     f_wrap = [pool.submit(wrap_task, t) for t in tasks]
     f_lay = [pool.submit(layout_task, t) for t in ltasks]
     f_cap = [pool.submit(capture_task, t) for t in ctasks]
@@ -386,25 +394,27 @@ def run(ctx):
     ctx.state(cap['n'])
     ctx.evaluated(cap['n'])
     checked = 0
-    for f_doc in f_docs:
+    for dj, f_doc in zip(djobs, f_docs):
         dres = f_doc.result()
+        tag = dj['id'].split('/')[0]
         if not dres['gen']['ok']:
-            allfails['docwords-generation'] = dict(kind='docwords-generation', text='baseline with comments', params=[], space='docstrings',
-                                                   detail=f'{dres["gen"]["etype"]}: {dres["gen"]["emsg"][:200]}')
+            allfails[f'docwords-generation|{tag}'] = dict(kind='docwords-generation', text=dj['id'], params=[dj['id']], space='docstrings',
+                                                          detail=f'{dres["gen"]["etype"]}: {dres["gen"]["emsg"][:200]}')
         elif 'probe_error' in dres:
             raise HarnessError('C20 docwords probe: ' + dres['probe_error'][-1500:])
         elif dres['obs'].get('import_error'):
             e = dres['obs']['import_error']
-            allfails['docwords-import'] = dict(kind='docwords-import', text='baseline with comments', params=[], space='docstrings',
-                                               detail=f'{e["etype"]}: {e["emsg"][:200]}')
+            allfails[f'docwords-import|{tag}|{e["etype"]}@{e["where"].split(":")[0]}'] = dict(
+                kind='docwords-import', text=dj['id'], params=[dj['id']], space='docstrings', detail=f'{e["etype"]}: {e["emsg"][:200]} at {e["where"]}')
         else:
             dobs = dres['obs']
             checked += dobs['checked']
             ctx.state(dobs['checked'])
             ctx.evaluated(dobs['checked'])
             for f_ in dobs['failures']:
-                allfails[f'docstring-words|{f_["kind"]}|{features(f_["text"])}'] = dict(
-                    kind='docstring-words', text=f_['text'], params=[f_['element']], space='docstrings', detail=f_['what'] + ': ' + f_.get('doc', '')[:150])
+                cls = features(f_['text']) if tag.startswith('docwords') else tag
+                allfails[f'docstring-words|{f_["kind"]}|{f_.get("place", "leading")}|{cls}'] = dict(
+                    kind='docstring-words', text=f_['text'], params=[dj['id'], f_['element']], space='docstrings', detail=f_['what'] + ': ' + f_.get('doc', '')[:150])
     ctx.log(f'docstrings: {checked} commented API elements checked')
     ctx.extra['commented_elements_checked'] = checked
     if checked < 200 and not allfails:
